@@ -132,6 +132,7 @@ def check_C11(tier, replay=None):
     if tier == "quick":
         runs.append(("MC_C11_f3", {"File": F3, "FileSeq": "<- FileSeq3", "Extras": "<- NoExtras", "Siblings": "<- Sib3", "MaxCalls": "2", "RefsOn": "FALSE"}))
         runs.append(("MC_C11_f3refs", {"File": F3, "FileSeq": "<- FileSeq3", "Extras": "<- NoExtras", "Siblings": "<- NoSib", "MaxCalls": "1", "RefsOn": "TRUE"}))
+        runs.append(("MC_C11_f4dagrefs", {"File": F4, "FileSeq": "<- FileSeq4", "Extras": "<- NoExtras", "Siblings": "<- NoSib", "MaxCalls": "1", "RefsOn": "TRUE", "_spec": "MCSpecDag"}))
     else:
         runs.append(("MC_C11_f4", {"File": F4, "FileSeq": "<- FileSeq4", "Extras": "<- NoExtras", "Siblings": "<- Sib3", "MaxCalls": "1", "RefsOn": "FALSE"}))
         runs.append(("MC_C11_f3x", {"File": F3, "FileSeq": "<- FileSeq3", "Extras": "<- AllExtras", "Siblings": "<- Sib3", "MaxCalls": "3", "RefsOn": "FALSE"}))
@@ -171,7 +172,7 @@ def check_C11(tier, replay=None):
     R.viol = all_viol
     R.samples = R.cases[:2]
     R.extra["exhaustive"] = not any("random" in r[0] for r in runs)
-    R.extra["exhaustive_part"] = "every digraph over 3 (quick) / 4 (thorough) files and every start file; the 6-file graphs of the thorough tier are a seeded random sample"
+    R.extra["exhaustive_part"] = "every digraph over 3 (quick) / 4 (thorough) files and every start file, and every acyclic digraph over 4 files with cross references between the files (quick); the 4-file graphs with references and the 6-file graphs of the thorough tier are seeded random samples"
     R.extra["bounds"] = [r[0] for r in runs]
     return finish(R, "model_checking",
                   "every import digraph over the files (every edge subset, every start) is one TLC initial state; each is concretised, run through the real reader/writer and its trace judged by TLC; a case is distinct by (graph, start)",
@@ -274,7 +275,12 @@ def check_C15(tier, replay=None):
     res, vocab, cases, _ = mc_run(R, "MC_C15", c, "MC_C15_" + tier, workers=8)
     log(f"MC_C15: {res['distinct']} distinct states, {res['wall']:.1f}s")
     stride = 997 if tier == "quick" else 1
-    cases += corpus_cases("C15", "sink", {"stride": stride})
+    corpus = corpus_cases("C15", "sink", {"stride": stride})
+    if tier != "quick":
+        # stride 1 on the exchange document is tens of thousands of write calls x 8 faults: split the indices over 16 workers
+        big = [c for c in corpus if "exchange" in c["label"]]
+        corpus = [c for c in corpus if c not in big] + [dict(c, parts=16, part=k, label=c["label"] + "#%d" % k) for c in big for k in range(16)]
+    cases += corpus
     for i, cs in enumerate(cases):
         cs["id"] = i + 1
         cs["seed"] = z.seed()
@@ -558,7 +564,7 @@ def check_C19(tier, replay=None):
     c = cfg("MCSpec", {"NotForwarded": "{}"}, invariants=["TransparentWhenForwarding", "Emit"])
     res, vocab, cases, _ = mc_run(R, "MC_C19", c, "MC_C19", workers=4)
     # vacuity guard: with any one channel not forwarded the model must find a non-transparent value
-    for ch in ("ser", "check", "attrs"):
+    for ch in ("ser", "check", "attrs", "check_memo"):
         c2 = cfg("MCSpec", {"NotForwarded": '{"%s"}' % ch}, invariants=["TransparentBroken"])
         r2 = z.tlc(os.path.join(z.SPEC, "mc", "MC_C19.tla"), c2.replace("TransparentBroken", "TransparentAlways"), workers=2, timeout=300, name="MC_C19_no_" + ch)
         if r2["ok"]:
@@ -574,7 +580,7 @@ def check_C19(tier, replay=None):
     R.samples = cases[:2]
     R.extra["exhaustive"] = True
     return finish(R, "model_checking",
-                  "model: every value tree of a bounded family with wrappers at every position is transparent on the channels ser / attrs / check when the wrapper forwards them (and not transparent when any one is dropped); replay: probe types (text-only, attributes, nested with optional and repeated members, self-referential tree, restricted, flattened) x value shapes (text class, optional present/absent, 0..2 items, depth 0..2, attribute present/absent, violating value), each built bare and wrapped against the unmodified helper source; TLC requires every channel (serialised text at the root / as a field / flattened, deserialised Debug text, restriction result, Default, clone sharing) to agree",
+                  "model: every value tree of a bounded family with wrappers at every position is transparent on the channels ser / attrs / check - the check under every history of one or two handed-down restrictions - when the wrapper forwards them statelessly (and not transparent when any one is dropped or a passed check is remembered); replay: probe types (text-only, attributes, nested with optional and repeated members, self-referential tree, restricted, flattened) x value shapes (text class, optional present/absent, 0..2 items, depth 0..2, attribute present/absent, violating value), each built bare and wrapped against the unmodified helper source; TLC requires every channel (serialised text at the root / as a field / flattened, deserialised Debug text, restriction result once and over a history of five handed-down restrictions - on the value, on a clone, on a deserialised value -, Default, clone sharing) to agree",
                   ["hand-written probe types (harness/src/multiref.rs)", "yaserde 0.12", "TLC"])
 
 
